@@ -376,6 +376,21 @@ def _returns_as_breaks(stmts: list) -> list:
     return res_
 
 
+def _tests_read_name(body: list, name: str) -> bool:
+    """Does a test inside the loop body (an `if` / `while` / conditional-expression test, a comprehension filter, an `assert`) read `name`?"""
+    for st in body:
+        for n in ast.walk(st):
+            tests = []
+            if isinstance(n, (ast.If, ast.While, ast.IfExp, ast.Assert)):
+                tests.append(n.test)
+            elif isinstance(n, ast.comprehension):
+                tests.extend(n.ifs)
+            for t in tests:
+                if any(isinstance(x, ast.Name) and x.id == name and isinstance(x.ctx, ast.Load) for x in ast.walk(t)):
+                    return True
+    return False
+
+
 @dataclass
 class State:
     env: dict[str, Term]
@@ -1611,6 +1626,10 @@ class Evaluator:
                 first_hit = ("call", "next", (("comp", "gen", alts[0][1], ((pat, it, tuple(alts[0][0])),)), oldv), ())
             acc = first_hit if first_hit is not None else self._summarise_accumulation(
                 name, oldv, alts, pat, it, line, bool(breaks), n_paths=len(normals) + len(breaks))
+            if acc is not None and first_hit is None and _tests_read_name(st.body, name):
+                # the body TESTS the accumulator it is filling (`if x not in seen: seen.update(f(x))`): the value tested in iteration k is the
+                # result of iterations 1..k-1, not the initial value -- a closed comprehension over the initial value would be wrong
+                acc = unknown(f"loop-carried-test:{name}", line)
             if acc is None and not breaks and not exits and len(alts) == 1 and oldv is not None and (
                     not any(x == oldv for x in subterms(alts[0][1])) or not _body_reads_name(st.body, name)):
                 # `v = default; for x in S: if c(x): v = f(x)` (no break, f does not use v): the LAST hit, or the default --
@@ -3105,6 +3124,7 @@ class Evaluator:
             t = ("call", r.qname, tuple(args), tuple(sorted(kwargs.items())))
         else:
             b = self._fill_const_defaults(r, b, skip)
+            b = self._normalise_precomputed(r, b)
             t = ("call", r.qname, (), tuple(sorted(b.items())))
         self.set_type(t, self.parse_ann(r.module, r.node.returns))
         return t
@@ -3118,6 +3138,45 @@ class Evaluator:
             t = ("meth", recv, m.name, (), tuple(sorted(b.items())))
         self.set_type(t, self.parse_ann(m.module, m.node.returns))
         return t
+
+    def _normalise_precomputed(self, f: Func, b: dict[str, Term]) -> dict[str, Term]:
+        """An optional argument the callee would compute itself.  `def f(x, *, g=None): ...; if g is None: g = E(x); ...` lets a caller hand over
+        E(x) computed once (hoisted out of a loop).  When the value a call passes for `g` is exactly what the callee's own straight-line prefix
+        computes for `g is None` on the same arguments, the call is the call with g=None; otherwise it is left as written."""
+        a = f.node.args
+        pos = a.posonlyargs + a.args
+        defaults = [None] * (len(pos) - len(a.defaults)) + list(a.defaults)
+        opt = {p.arg for p, d in list(zip(pos, defaults)) + list(zip(a.kwonlyargs, a.kw_defaults)) if isinstance(d, ast.Constant) and d.value is None}
+        cand = [p for p in opt if p in b and b[p] != NONE]
+        if not cand or getattr(self, "_in_precomputed", False):
+            return b
+        body = [st for st in f.node.body if not (isinstance(st, ast.Expr) and isinstance(st.value, ast.Constant))]
+        for p in cand:
+            idx = None
+            for i, st in enumerate(body):
+                if (isinstance(st, ast.If) and not st.orelse and isinstance(st.test, ast.Compare) and len(st.test.ops) == 1 and isinstance(st.test.ops[0], ast.Is)
+                        and isinstance(st.test.left, ast.Name) and st.test.left.id == p and isinstance(st.test.comparators[0], ast.Constant)
+                        and st.test.comparators[0].value is None and len(st.body) == 1 and isinstance(st.body[0], ast.Assign)
+                        and len(st.body[0].targets) == 1 and isinstance(st.body[0].targets[0], ast.Name) and st.body[0].targets[0].id == p):
+                    idx = i
+                    break
+                if not isinstance(st, (ast.Assign, ast.AnnAssign)):
+                    break  # only a straight-line prefix of plain assignments is read
+            if idx is None:
+                continue
+            env = dict(b)
+            env[p] = NONE
+            self._in_precomputed = True
+            try:
+                outs = self.exec_block(body[:idx] + [body[idx].body[0]], State(env), f)
+            except Exception:  # noqa: BLE001
+                outs = []
+            finally:
+                self._in_precomputed = False
+            if len(outs) == 1 and outs[0][1] == "fall" and not outs[0][0].conds and outs[0][0].env.get(p) == b[p]:
+                b = dict(b)
+                b[p] = NONE
+        return b
 
     def _fill_const_defaults(self, f: Func, b: dict[str, Term], skip_self: bool) -> dict[str, Term]:
         a = f.node.args
